@@ -120,14 +120,19 @@ def snapshot(tag, inject=True, only=None):
 # Kani
 # ---------------------------------------------------------------------------------------------
 
+LANE = os.environ.get("VERIF_LANE", "")
+
+
 def kani_target_dir():
-    d = os.path.join(WORK, "target-kani")
+    # one build directory per lane: cargo's unit directories do not depend on the path of a path
+    # dependency, so two snapshots built concurrently into one target dir overwrite each other's artifacts
+    d = os.path.join(WORK, "target-kani" + LANE)
     os.makedirs(d, exist_ok=True)
     return d
 
 
 def native_target_dir():
-    d = os.path.join(WORK, "target-native")
+    d = os.path.join(WORK, "target-native" + LANE)
     os.makedirs(d, exist_ok=True)
     return d
 
@@ -207,7 +212,8 @@ def run_kani(src, harnesses, log, harness_timeout=300, extra=None, overall_timeo
         cmd += ["--harness", h]
     # never trust cached artifacts of the crate under verification (dependencies stay cached)
     import glob
-    for fp in glob.glob(os.path.join(kani_target_dir(), "kani", "*", "debug", ".fingerprint", "svgbob-*")):
+    for fp in glob.glob(os.path.join(kani_target_dir(), "kani", "*", "debug", "build", "svgbob")) + \
+            glob.glob(os.path.join(kani_target_dir(), "kani", "*", "debug", ".fingerprint", "svgbob-*")):
         shutil.rmtree(fp, ignore_errors=True)
     env = {"VERIF_THOROUGH": "1"} if thorough else None
     if not thorough:
